@@ -3,11 +3,15 @@ GNU ld, read the constructor/destructor arrays back (independent ELF reader) and
 
 Scenario (as printed by specs/MCInitOrder.tla):
   {"objs": [{"member": bool, "pulledby": int, "entries": [{"a": "init"|"fini"|"ctors"|"dtors"|"preinit",
-                                                           "p": int (-1 = no suffix)}, ...]}, ...],
+                                                           "p": int (-1 = no suffix),
+                                                           "t": "array"|"progbits" (sh_type)}, ...]}, ...],
    "expect": {"preinit": [[o, e], ...], "init": [...], "fini": [...]}}
 Objects are numbered from 1 in command-line order (after main.o); entry e of object o is the function
 f<o>_<e>, whose address is stored by one `.quad` in the section named by (a, p).  Entries of one
 object that name the same section are one input section (the assembler concatenates them).
+The assembler gives the well-known names their usual type whatever the source says, so a type that
+does not match the name (.init_array as SHT_PROGBITS, .ctors as SHT_INIT_ARRAY, ..) is produced by
+patching sh_type in the assembled object (and verified by reading it back).
 Objects with member=true are members of lib.a (archive order = object order), which stands on the
 command line where its first member would stand; a member is extracted because main.o (pulledby=0)
 or another member (pulledby=k) references its anchor symbol.
@@ -27,12 +31,55 @@ BASE = {"preinit": ".preinit_array", "init": ".init_array", "fini": ".fini_array
         "ctors": ".ctors", "dtors": ".dtors"}
 SECTYPE = {"preinit": "@preinit_array", "init": "@init_array", "fini": "@fini_array",
            "ctors": "@progbits", "dtors": "@progbits"}
+SHT_PROGBITS = 1
+SHT_OF_ARRAY = {"init": 14, "ctors": 14, "fini": 15, "dtors": 15, "preinit": 16}
+NATIVE_T = {"preinit": "array", "init": "array", "fini": "array", "ctors": "progbits", "dtors": "progbits"}
 OUT_ARRAYS = ("preinit", "init", "fini")
 OUT_SECTION = {"preinit": ".preinit_array", "init": ".init_array", "fini": ".fini_array"}
 
 
 def section_name(a, p):
     return BASE[a] if p is None or int(p) < 0 else f"{BASE[a]}.{int(p)}"
+
+
+def entry_type(ent):
+    return ent.get("t") or NATIVE_T[ent["a"]]
+
+
+def retypes(ob):
+    """{section name: sh_type} for the sections of an object whose type does not match their name."""
+    out = {}
+    for ent in ob["entries"]:
+        if entry_type(ent) != NATIVE_T[ent["a"]]:
+            out[section_name(ent["a"], ent["p"])] = SHT_PROGBITS if entry_type(ent) == "progbits" else SHT_OF_ARRAY[ent["a"]]
+    return out
+
+
+def patch_section_types(obj_path, retype):
+    """Set sh_type of the named sections of a relocatable object (field at e_shoff + idx*shentsize + 4)."""
+    if not retype:
+        return
+    e = Elf(obj_path)
+    data = bytearray(Path(obj_path).read_bytes())
+    done = set()
+    for sec in e.sections:
+        if sec["name"] in retype:
+            struct.pack_into("<I", data, e.e_shoff + sec["index"] * e.e_shentsize + 4, retype[sec["name"]])
+            done.add(sec["name"])
+    if done != set(retype):
+        raise ToolError(f"cannot retype {set(retype) - done} in {obj_path}")
+    Path(obj_path).write_bytes(bytes(data))
+    chk = Elf(obj_path)
+    for name, typ in retype.items():
+        if [x["type"] for x in chk.sections_named(name)] != [typ]:
+            raise ToolError(f"retyping {name} in {obj_path} did not take effect")
+
+
+def input_section_types(obj_path):
+    """[(name, sh_type, number of 8-byte entries)] of the constructor/destructor input sections of an object."""
+    e = Elf(obj_path)
+    return [(x["name"], x["type"], x["size"] // 8) for x in e.sections
+            if x["name"].startswith((".init_array", ".fini_array", ".preinit_array", ".ctors", ".dtors"))]
 
 
 def fname(o, e):
@@ -140,10 +187,13 @@ _cache_lock = threading.Lock()
 _key_locks = {}
 
 
-def _assemble_cached(name, text, d, cache):
+def _assemble_cached(name, text, d, cache, retype=None):
+    retype = retype or {}
     if cache is None:
-        return asm.write_asm(d, name, text)
-    key = hashlib.sha1(text.encode()).hexdigest()[:20]
+        obj = asm.write_asm(d, name, text)
+        patch_section_types(obj, retype)
+        return obj
+    key = hashlib.sha1((text + repr(sorted(retype.items()))).encode()).hexdigest()[:20]
     obj = Path(cache) / f"{name}-{key}.o"
     with _cache_lock:
         lock = _key_locks.setdefault(str(obj), threading.Lock())
@@ -154,19 +204,23 @@ def _assemble_cached(name, text, d, cache):
             r = _tool(["as", "--64", "-o", tmp + ".o", tmp + ".s"], "as")
             if r.rc != 0:
                 raise ToolError(f"as failed: {r.err[-1000:]}")
+            patch_section_types(tmp + ".o", retype)
             os.replace(tmp + ".s", obj.with_suffix(".s"))
             os.replace(tmp + ".o", obj)
     return obj
 
 
-def emit(scn, d, align=3, cache=None):
+def emit(scn, d, align=3, cache=None, info=None):
     """Assemble main.o and o<k>.o (through the content-addressed `cache` directory if given), build
     lib.a in d if there are members.  Returns the link inputs in command-line order."""
     d = Path(d)
     srcs = sources(scn, align)
     objs = scn["objs"]
     main_o = _assemble_cached("main", srcs["main"], d, cache)
-    paths = {o: _assemble_cached(f"o{o}", srcs[f"o{o}"], d, cache) for o in range(1, len(objs) + 1)}
+    paths = {o: _assemble_cached(f"o{o}", srcs[f"o{o}"], d, cache, retypes(objs[o - 1]))
+             for o in range(1, len(objs) + 1)}
+    if info is not None:
+        info["objects"] = {o: str(p) for o, p in paths.items()}
     members = [o for o, ob in enumerate(objs, 1) if ob.get("member")]
     inputs = [main_o]
     lib = None
